@@ -25,7 +25,7 @@ struct RaceInfo
 {
     int repo_reports = 0;    // reports with a frame in /repo/include
     int foreign_reports = 0; // reports without one (harness trouble)
-    std::string first;       // short description of the first repo report
+    char first[400] = {0};   // short description of the first report (fixed buffer: the hook must not allocate)
 };
 RaceInfo &race_info();
 void san_begin_run();
